@@ -200,6 +200,20 @@ CLAIMED = {
        'EHLO 500 -> HELO, queue verdicts, two messages per connection), wire bytes tapped and compared with the model, plus unit differentials.',
   ref='6/C06', technique='Lean 4 proof (round-trip theorems by induction over the scanners; base64 by arithmetic) + differential / end-to-end correspondence vs real relay clients and edges',
   note='Partial: per-leg theorems composed informally; TLS, email package and lenient base64 decoding outside the model.'),
+ 'C14': dict(
+  text='PARTIAL (wall-clock behaviour and gevent\'s timer are runtime facts the model cannot exhibit; blocking sends to a peer that never reads are '
+       'not modelled; the theorems are about scope structure and arithmetic). Lean theorems over Model/Timeouts.lean for every peer behaviour '
+       '(any number of pieces, any gaps, pieces that never come): a wait inside a `with Timeout` scope lasts at most the scope\'s limit however the '
+       'bytes trickle (the data timeout is cumulative over the DATA phase, the command timeout over the assembly of a line); a sequence of scoped waits '
+       'never hangs, ends within the sum of the limits, and when it is cut the time since the last completed step is exactly the limit of the step '
+       'that was cut; every blocking step in the code\'s table — server: command, DATA phase, AUTH response, both TLS handshakes, close; relay: '
+       'connect, immediate TLS, banner, EHLO/HELO, STARTTLS incl. handshake, AUTH, MAIL, RCPT, DATA, message data, RSET, QUIT, close — has a scope. '
+       'The table is what the correspondence validates: real SmtpEdge sessions (incl. real TLS) against a client stalling / trickling at 16 points, '
+       'real StaticSmtpRelay / StaticLmtpRelay attempts against a peer stalling at 15 stages x PIPELINING x SMTP/LMTP, PipeRelay and HttpRelay '
+       'against a program / server that never answers, with 80 / 200 ms timeouts: each run must end where the model says, not before 0.7x the '
+       'limit, with a 421 / a transient failure, and never be blocked at the 3 s watchdog.',
+  ref='6/C14', technique='Lean 4 proof (arithmetic of timeout scopes over arbitrary peer behaviours; case analysis of the scope table) + wall-clock correspondence vs real SmtpEdge / relay clients against stalling peers',
+  note='Partial: real time and gevent timers are outside the model.'),
 }
 def main():
     props = [json.loads(l) for l in open(os.path.join(V, 'properties.jsonl'))]
